@@ -22,3 +22,4 @@ CHECKS["X02"] = checks_extra.check_scripts
 REPLAYERS = {}
 CHECKS["X10"] = checks_extra.check_refine
 CHECKS["X11"] = checks_extra.check_refine
+CHECKS["X03"] = checks_extra.check_zwindow
